@@ -658,6 +658,31 @@ func (w *world) run() {
 	if w.n <= 7 {
 		w.allSubsets()
 	}
+	// larger groups: one more stateless reconstruction over a seeded set of genuine shares, t+1 plus
+	// 0..5 surplus ones, in a seeded order (the list is long: more than a kilobyte of shares once
+	// 22 of them are passed)
+	if w.n >= 13 {
+		k := w.t + 1 + c.Choose(6, "bigstateless.surplus")
+		if k > w.n {
+			k = w.n
+		}
+		perm := make([]int, w.n)
+		for i := range perm {
+			perm[i] = i
+		}
+		ord := c.Sub("bigstateless.order")
+		for i := w.n - 1; i > 0; i-- {
+			j := ord.Intn(i + 1)
+			perm[i], perm[j] = perm[j], perm[i]
+		}
+		col := &collector{id: 90, mode: 3}
+		for _, i := range perm[:k] {
+			col.list = append(col.list, i) // pool index i = genuine share of signer i
+			col.origs = append(col.origs, i)
+		}
+		w.stateless(col)
+		w.out.Probes["big_stateless_reconstruction"]++
+	}
 }
 
 // undecodable lists the bad-share kinds that are not encodings of any point of E1.
@@ -796,6 +821,38 @@ func (w *world) stateless(col *collector) {
 		sig, err = crypto.BLSReconstructThresholdSignature(w.n, w.t, shares, col.origs)
 	}) {
 		return
+	}
+	if err == nil && len(sig) > 0 {
+		// the result is HELD as returned (no copy) while the same reconstruction is requested a second
+		// time: the first result must not change (a result that aliases pooled or internal memory
+		// does), and the second must be the same bytes
+		held, want := sig, append([]byte(nil), sig...)
+		var sig2 crypto.Signature
+		var err2 error
+		if w.guard(fmt.Sprintf("collector %d BLSReconstructThresholdSignature(again)", col.id), func() {
+			sig2, err2 = crypto.BLSReconstructThresholdSignature(w.n, w.t, shares, col.origs)
+		}) {
+			return
+		}
+		// ... and a third time on a list whose first share is replaced by another signer's share
+		// (whatever that call returns): memory of the first result must be out of its reach
+		if len(shares) >= 2 {
+			other := append([]crypto.Signature(nil), shares...)
+			other[0] = shares[1]
+			if w.guard(fmt.Sprintf("collector %d BLSReconstructThresholdSignature(other list)", col.id), func() {
+				_, _ = crypto.BLSReconstructThresholdSignature(w.n, w.t, other, col.origs)
+			}) {
+				return
+			}
+		}
+		if !bytes.Equal(held, want) {
+			w.viol("C06", "unique", "stateless.result-mutated", "the signature returned by BLSReconstructThresholdSignature (%d shares) changed when the function was called again", len(shares))
+			return
+		}
+		if err2 != nil || !bytes.Equal(sig2, want) {
+			w.viol("C06", "unique", "stateless.second-call-differs", "the same stateless reconstruction (%d shares) requested twice: second result err=%v differs from the first", len(shares), err2)
+			return
+		}
 	}
 	got := errClass(err)
 	w.ev("collector %d stateless reconstruction over %d arrivals -> err=%q sig=%.16x", col.id, len(shares), got, []byte(sig))
